@@ -1,5 +1,9 @@
 -- Root of the library: models, property theorems, driver handlers.
 import WebrtcVerif.Base.Wire
-import WebrtcVerif.Model.ConnState
+import WebrtcVerif.Base.Bytes
+import WebrtcVerif.Props.C05
 import WebrtcVerif.Props.C22
+import WebrtcVerif.Props.C36
+import WebrtcVerif.Drv.C05
 import WebrtcVerif.Drv.C22
+import WebrtcVerif.Drv.C36
